@@ -146,7 +146,7 @@ package gzip
 //@   loop 1 invariant 0 <= #i && #i <= len(g.Configs) && nextCalls == old(nextCalls) && errBodies == old(errBodies)
 //@   loop 2 invariant 0 <= #i2 && #i2 <= len(c.RequestFilters) && nextCalls == old(nextCalls) && errBodies == old(errBodies)
 
-//@ unit gzip_parse frames=on props=C18 filter=`gzip\.gzipParse$`
+//@ unit gzip_parse frames=on props=C18,C11 dispenser_variants=on filter=`gzip\.gzipParse$`
 //@ // "responses that are already encoded are not encoded again" rests on SkipCompressedFilter being among the response
 //@ // filters of EVERY gzip block the setup builds (Gzip.ServeHTTP compresses unconditionally when a block has none).
 //@ use casketfile/contracts_verif.go:dispenser_api
@@ -170,7 +170,9 @@ package gzip
 //@   loop 3 invariant c != nil && forall(k, 0, len(configs), skips(configs[k]))
 //@   loop 4 invariant c != nil && forall(k, 0, len(configs), skips(configs[k]))
 
-//@ unit setup_sweep props=C11 files=setup.go nilchecks=on nonnil_params=on dispenser_variants=on exclude=`gzip\.(gzipParse|initWriterPool)$` filter=`.`
+//@ unit setup_sweep props=C11 files=setup.go nilchecks=on nonnil_params=on dispenser_variants=on exclude=`gzip\.gzipParse$` filter=`.`
+//@ // package-level map created by its initialiser and never reassigned
+//@ invariant writerPool != nil
 //@ // Safety sweep of this directive's setup code: index, slice, division, nil-map store, nil dereference, explicit panic,
 //@ // and termination of the loops driven by the token cursor. No functional contract; callees in the dispenser through their contracts.
 //@ use casketfile/contracts_verif.go:dispenser_api
